@@ -1,8 +1,22 @@
 """C12 Merge/Replicate move every value exactly once and finish when inputs do (spec/merge)."""
 from bubblecommon import bubble_tv
+from common import mc, mc_must_fail
+
+
+def design(ctx):
+    # D: chans.Merge's select loop for 0, 2, 3 and 5 inputs and stream.Merge (reader goroutines, Pipe(0), nDone,
+    #    closeOnce, cancellation, Close) under every interleaving; a wrong case removal and the pinned stream.Merge
+    #    (Close neither cancelling nor waiting, inputs never closed) must fail (teeth)
+    for cfg in ("cm0.cfg", "cm2.cfg", "cm3.cfg", "cm5.cfg"):
+        mc(ctx, "merge", "ChansMerge", cfg, "ChansMerge " + cfg, coverage=False)
+    mc_must_fail(ctx, "merge", "ChansMerge", "cm5_bad.cfg", "reflect path removing the wrong case")
+    for cfg in ("sm0.cfg", "sm2.cfg", "sm2e.cfg", "sm3.cfg"):
+        mc(ctx, "merge", "StreamMerge", cfg, "StreamMerge " + cfg, coverage=False)
+    mc_must_fail(ctx, "merge", "StreamMerge", "sm2_pinned.cfg", "pinned stream.Merge (F4)", expect="AfterClose")
 
 
 def run(ctx):
+    design(ctx)
     # T: chans.Merge for arities 0..5 (the four code paths), chans.Replicate for 0..3 destinations,
     #    stream.Merge over 0..3 gated inputs with End / error at any position, cancelled consumer
     #    contexts and Close at any moment; judged by Trace_Merge
